@@ -333,6 +333,9 @@ var tokens = []string{
 
 const itemPrefix = "S1F1 W <"
 
+// tokens[firstTypeTok..lastTypeTok] are the item-type tokens L, A, B, U1, F4, BOOLEAN
+const firstTypeTok, lastTypeTok = 5, 10
+
 // the 64 bytes of the length-3 byte sweep: every byte the scanner branches on, the letters
 // of the type names, number syntax, blanks, control bytes, and UTF-8 lead/continuation bytes.
 var bytes64 = []byte("SFWLABJUIOENT" + "sfl" + ".\n<>[]\"'\\/*: \t\r" + "0124789x-+" +
@@ -371,6 +374,10 @@ func allocBound(n int) uint64 {
 
 // one runs every entry point on text and applies the oracle.
 func (s *sweeper) one(text string, measure bool) {
+	s.oneWith(s.entries, text, measure)
+}
+
+func (s *sweeper) oneWith(entries []entryT, text string, measure bool) {
 	c := s.c
 	s.cur.Store(&text)
 	s.curAt.Store(time.Now().UnixNano())
@@ -379,7 +386,7 @@ func (s *sweeper) one(text string, measure bool) {
 		runtime.ReadMemStats(&m0)
 	}
 	var sigs [8]string
-	for i, e := range s.entries {
+	for i, e := range entries {
 		o := s.r.call(e, text)
 		v := check(e, text, o, s.cc)
 		c.Outcome(kindName(e.Kind) + ":" + v.class)
@@ -390,7 +397,7 @@ func (s *sweeper) one(text string, measure bool) {
 			errors.As(o.err, &pe)
 			c.Sample(map[string]any{"entry": e.Name, "text": text, "offset": pe.Offset, "line": pe.Line, "col": pe.Col, "msg": pe.Msg})
 		}
-		if i < 4 {
+		if i < 4 && len(entries) == 8 {
 			sigs[i] = sig(o)
 		}
 	}
@@ -398,9 +405,9 @@ func (s *sweeper) one(text string, measure bool) {
 		runtime.ReadMemStats(&m1)
 		d := m1.TotalAlloc - m0.TotalAlloc
 		c.Add("alloc_measured_groups", 1)
-		if d > uint64(len(s.entries))*allocBound(len(text)) {
+		if d > uint64(len(entries))*allocBound(len(text)) {
 			// attribute to one entry
-			for _, e := range s.entries {
+			for _, e := range entries {
 				runtime.ReadMemStats(&m0)
 				s.r.call(e, text)
 				runtime.ReadMemStats(&m1)
@@ -412,7 +419,7 @@ func (s *sweeper) one(text string, measure bool) {
 		}
 	}
 	// fresh instance (package function) vs long-lived reused instance: same result
-	if sigs[0] != sigs[2] || sigs[1] != sigs[3] {
+	if len(entries) == 8 && (sigs[0] != sigs[2] || sigs[1] != sigs[3]) {
 		which, a, b := "Parser.Parse", sigs[0], sigs[2]
 		if sigs[0] == sigs[2] {
 			which, a, b = "Parser.Parse/strict", sigs[1], sigs[3]
@@ -420,7 +427,7 @@ func (s *sweeper) one(text string, measure bool) {
 		c.Violate("instance-state:"+which, fmt.Sprintf("%s on a reused Parser differs from a fresh Parser for %q: fresh=%s reused=%s", which, clipS(text, 200), clipS(a, 200), clipS(b, 200)),
 			map[string]any{"entry": which, "text": text})
 	}
-	c.Count(int64(len(s.entries)), int64(len(s.entries))*int64(b2i(!whitespaceOnly(text))))
+	c.Count(int64(len(entries)), int64(len(entries))*int64(b2i(!whitespaceOnly(text))))
 }
 
 func kindName(k int) string {
@@ -449,7 +456,7 @@ func (s *sweeper) seq(text string) bool {
 	return true
 }
 
-func (s *sweeper) run(maxTok int) {
+func (s *sweeper) run(maxTok, extraTok int) {
 	c := s.c
 	// token sequences, shortest first, odometer order
 	var buf []byte
@@ -483,6 +490,50 @@ func (s *sweeper) run(maxTok int) {
 			}
 		}
 	}
+	s.bytesAndExtra(extraTok)
+}
+
+func (s *sweeper) bytesAndExtra(extraTok int) {
+	c := s.c
+	defer func() {
+		// one more token level, reduced: only behind the item prefix and starting with an
+		// item-type token (any other first token ends the parse at "failed to parse item type",
+		// which the full levels cover), and only through sml.Parse / sml.ParseStrict
+		if extraTok == 0 || s.stop {
+			return
+		}
+		reduced := s.entries[:2]
+		idx := make([]int, extraTok)
+		idx[0] = firstTypeTok
+		buf := []byte(itemPrefix)
+		for !s.stop {
+			if c.Next() {
+				s.owned++
+				if s.owned&1023 == 0 && c.Expired() {
+					s.stop = true
+					return
+				}
+				buf = buf[:len(itemPrefix)]
+				for _, t := range idx {
+					buf = append(buf, tokens[t]...)
+				}
+				s.oneWith(reduced, string(buf), s.owned%50 == 0)
+				c.Add("token_sequences_reduced_level", 1)
+			}
+			k := extraTok - 1
+			for k >= 0 {
+				idx[k]++
+				if (k > 0 && idx[k] < len(tokens)) || (k == 0 && idx[0] <= lastTypeTok) {
+					break
+				}
+				idx[k] = 0
+				k--
+			}
+			if k < 0 {
+				return
+			}
+		}
+	}()
 	// byte strings: length 1, 2 over all 256 values; length 3 over bytes64
 	for a := 0; a < 256 && !s.stop; a++ {
 		if c.Next() {
@@ -516,7 +567,7 @@ func (s *sweeper) run(maxTok int) {
 // runSweep runs the sweep on its own goroutine under a watchdog: a single parse of a
 // <= 50-byte input that does not return within the horizon is reported as hang:sweep (the
 // goroutine cannot be killed; the shard returns and the process exits).
-func runSweep(c *vfw.Ctx, cc *colConv, maxTok int) {
+func runSweep(c *vfw.Ctx, cc *colConv, maxTok, extraTok int) {
 	s := &sweeper{c: c, r: newRunner(), cc: cc, entries: entryList()}
 	done := make(chan struct{})
 	go func() {
@@ -526,7 +577,7 @@ func runSweep(c *vfw.Ctx, cc *colConv, maxTok int) {
 				c.HarnessError("sweep panicked outside the library: %v", x)
 			}
 		}()
-		s.run(maxTok)
+		s.run(maxTok, extraTok)
 	}()
 	const horizon = 120 * time.Second
 	tick := time.NewTicker(2 * time.Second)
@@ -581,11 +632,13 @@ func (r *replayT) UnmarshalJSON(b []byte) error {
 func TestCheck(t *testing.T) {
 	vfw.Main(t, "C14", func(c *vfw.Ctx) {
 		c.Level("exploration")
-		maxTok := 4
+		maxTok, extraTok := 4, 0
+		extraRule := ""
 		if c.Thorough() {
-			maxTok = 5
+			maxTok, extraTok = 5, 6
+			extraRule = "; plus every sequence of exactly 6 tokens that starts with an item-type token (L, A, B, U1, F4, BOOLEAN), behind the prefix, through sml.Parse and sml.ParseStrict"
 		}
-		c.Rule(fmt.Sprintf("E1 sweep: every sequence of <= %d tokens over the 26-token alphabet %q and every byte string of length <= 2 over 256 values and of length 3 over 64 chosen bytes, each as-is and behind %q, through sml.Parse, sml.ParseStrict and Parser.Parse / ParseMessage / ParseHeader (strict and non-strict, long-lived reused instances). Oracle per call: no panic; messages xor error ((empty,nil) / ErrNoMessage only for blank-or-comment input, and always for whitespace-only input); messages valid (stream<=127, W only on odd function, body Error()==nil); *ParseError has 0<=Offset<=len, Line and Col recomputed from the input (Col unit: bytes or runes, but one unit throughout); reused instance == fresh instance; TotalAlloc delta <= 1MiB+64*len+len^2 on every 50th case. non-trivial = input not whitespace-only", maxTok, tokens, itemPrefix))
+		c.Rule(fmt.Sprintf("E1 sweep: every sequence of <= %d tokens over the 26-token alphabet %q and every byte string of length <= 2 over 256 values and of length 3 over 64 chosen bytes, each as-is and behind %q, through sml.Parse, sml.ParseStrict and Parser.Parse / ParseMessage / ParseHeader (strict and non-strict, long-lived reused instances). Oracle per call: no panic; messages xor error ((empty,nil) / ErrNoMessage only for blank-or-comment input, and always for whitespace-only input); messages valid (stream<=127, W only on odd function, body Error()==nil); *ParseError has 0<=Offset<=len, Line and Col recomputed from the input (Col unit: bytes or runes, but one unit throughout); reused instance == fresh instance; TotalAlloc delta <= 1MiB+64*len+len^2 on every 50th case. non-trivial = input not whitespace-only%s", maxTok, tokens, itemPrefix, extraRule))
 		c.Rule("resource families, each point in a worker sub-process (ulimit -v 4 GiB, horizon 60 s, doubled once before a hang is reported): nesting depth of <L (open and closed), size hints [h] / [0..h] / [..h] for all 16 item types with h in {0,1,65536,2^24,2^31-1,2^31,2^32,2^63-1,2^63}, unterminated strings / numbers / comments, n messages without items, wide lists and arrays; oracle: exit status 0, messages xor error, positions as above, TotalAlloc <= 1MiB+64*len+len^2, and along each scaling series TotalAlloc and Mallocs grow at most quadratically (ratio <= (ratio of n)^2 * 4)")
 		c.Rule("shared state: every package-level var of <repo>/sml (go/ast on the current tree) is an error sentinel, a blank interface assertion or a never-written literal table; N goroutines with their own Parser/Encoder instances over a corpus give the sequential results (also TestRaceSML under -race)")
 		c.Assume("Go runtime and race detector", "runtime.MemStats.TotalAlloc/Mallocs as the deterministic work proxy (wall-clock is a horizon only)",
@@ -606,7 +659,7 @@ func TestCheck(t *testing.T) {
 		if c.Shard == 1%max(c.Shards, 1) {
 			concurrentEqualsSequential(c, 8, 10)
 		}
-		runSweep(c, cc, maxTok)
+		runSweep(c, cc, maxTok, extraTok)
 		if cc.byteOnly.Load() > 0 && cc.runeOnly.Load() > 0 {
 			c.Violate("errpos:col-unit-mixed", fmt.Sprintf("ParseError.Col counts bytes in %d distinguishing cases and runes in %d", cc.byteOnly.Load(), cc.runeOnly.Load()), map[string]any{"scan": "col-unit"})
 		}
